@@ -38,6 +38,7 @@ func validateVariables(doc *ast.Document, schema *schema.Schema, features schema
 
 			validate := func(node ast.Node) {
 				ast.Inspect(node, func(node ast.Node) bool {
+					verifCount(verifSiteVarsNode)
 					switch node := node.(type) {
 					case *ast.Variable:
 						if def, ok := variableDefinitions[node.Name.Name]; !ok {
@@ -60,6 +61,7 @@ func validateVariables(doc *ast.Document, schema *schema.Schema, features schema
 
 			for len(unvalidatedFragmentSpreads) > 0 {
 				for name := range unvalidatedFragmentSpreads {
+					verifCount(verifSiteVarsFragment)
 					delete(unvalidatedFragmentSpreads, name)
 					validatedFragmentSpreads[name] = true
 					if def, ok := fragmentDefinitions[name]; ok {
